@@ -194,6 +194,44 @@ Section PencilModel.
   Definition lltsa_embed oracle D d N X W := embed_body oracle (lltsa_centred X N W) D d N X.
   Definition lpp_embed oracle D d N X L dv := embed_body oracle (lpp_repaired X N L dv) D d N X.
 
+  (* ------------------------- the front end's dispatch (Wave 2) -------------------------
+     generalized_eigendecomposition(method, strategy, eigen_strategy, lhs, rhs, target_dimension)
+     in a build without TAPKEE_WITH_ARPACK / TAPKEE_WITH_VIENNACL (what is built here):
+        if (method.is(Dense))
+            impl<DenseMatrix,DenseMatrix>().dense:  if (strategy.is(HomogeneousCPUStrategy))
+                                                    { if (eigen_strategy.is(SmallestEigenvalues)) return dense solver, skip 0;
+                                                      unsupported(); }
+                                                    unsupported();
+        if (method.is(Randomized)) throw unsupported_method_error(...);
+        return EigendecompositionResult();
+     The three methods pass SmallestEigenvalues.  `Refused site`: 1 = Randomized, 2 = computation strategy,
+     3 = eigendecomposition strategy (all three: unsupported_method_error). *)
+  Inductive eig_method : Type := EMDense | EMRandomized.
+  Inductive comp_strategy : Type := CSHomogeneousCPU | CSOther.
+  Inductive eig_strategy : Type := ESSmallest | ESLargest | ESSquaredLargest.
+
+  Inductive front (A : Type) : Type :=
+  | Answer (r : result A)
+  | Refused (site : nat).
+  Arguments Answer {A} r.
+  Arguments Refused {A} site.
+
+  Definition embed_front (em : eig_method) (cs : comp_strategy) (es : eig_strategy)
+             (oracle : pencil -> mat F * vec F) (p : pencil) (D d N : nat) (X : mat F)
+    : front embed_result :=
+    match em with
+    | EMDense =>
+        match cs with
+        | CSHomogeneousCPU =>
+            match es with
+            | ESSmallest => Answer (embed_body oracle p D d N X)
+            | _ => Refused 3
+            end
+        | CSOther => Refused 2
+        end
+    | EMRandomized => Refused 1
+    end.
+
   (* ------------------------- list level (execution / extraction) ------------------------- *)
   (* first stored entry whose row or column index is not a sample index *)
   Fixpoint bad_index (N : nat) (W : sparse) : option nat :=
@@ -256,5 +294,7 @@ End PencilModel.
 
 Arguments Ok {A} a.
 Arguments OOB {A} site index size.
+Arguments Answer {A} r.
+Arguments Refused {A} site.
 Arguments pencil F : clear implicits.
 Arguments sparse F : clear implicits.
